@@ -115,8 +115,13 @@ func (x *Exec) callWithArgs(fr *frame, cc *ssa.CallCommon, fnv sval, args []sval
 		}
 	}
 	if fr.top && x.ct != nil && x.ct.OpaqueCalls && !x.errflow {
-		nst := x.havocForWrites(st, &WriteSet{Top: true}, "opaque call")
-		return x.freshResults(sig, nst, reach), nst
+		// functions of the repository (and unknown function values) are opaque; library functions
+		// keep their assumed contracts (errors.New / fmt.Errorf return a non-nil error)
+		sc := cc.StaticCallee()
+		if cc.IsInvoke() || sc == nil || inRepoFn(sc) {
+			nst := x.havocForWrites(st, &WriteSet{Top: true}, "opaque call")
+			return x.freshResults(sig, nst, reach), nst
+		}
 	}
 	var key string
 	var callee *ssa.Function
